@@ -28,10 +28,34 @@ PROP = "C09"
 LIST_FFI = ["head", "tail", "len", "cons", "cons_end"]          # Compile.tla: ListFnSeq (model numbering 0..4)
 
 
+SELF_REF = "function-passes-itself-as-value-panics"
+PROPOSED = os.path.join(os.path.dirname(os.path.abspath(__file__)), "c09_proposed_findings.json")
+
+
 def known_matcher(v, k):
-    if k.get("signature", {}).get("kind") == "function-value-late-bound":
+    sig = k.get("signature", {}).get("kind")
+    if sig == "function-value-late-bound":
         return v.get("kind") in ("value-differs", "model-vm-differs-from-eval", "trace-rejected-and-value-differs") and v.get("late_bound")
+    if sig == SELF_REF:
+        return v.get("kind") in ("setup-failed", "trace-rejected-and-value-differs") and v.get("self_ref_panic")
     return False
+
+
+def self_ref_panic(stmts, outcome_text):
+    """the compiler's unreachable!("Unknown identifier 'f_self'") while compiling `fn f_self(..) = .. f_ap(f_self, ..)`"""
+    return any(x.startswith("fn f_self(") and "f_ap(f_self" in x for x in stmts) and "panic" in outcome_text and "Unknown identifier 'f_self'" in outcome_text
+
+
+def self_ref_enabled():
+    """the programs in which a function passes itself as a value are generated once the finding they reproduce on the
+    pinned tree has an entry in known_findings.json (any status: known -> classified, fixed -> must pass), or on request"""
+    if os.environ.get("NV_C09_ASSUME_PROPOSED"):
+        return True
+    try:
+        data = json.load(open(os.path.join(nv.ROOT, "known_findings.json")))
+    except OSError:
+        return False
+    return any(e.get("property") == PROP and e.get("signature", {}).get("kind") == SELF_REF for e in data)
 
 
 def is_late_bound(variant, final):
@@ -182,7 +206,8 @@ def j_stage(rep, tier, cases, cat_by_variant, d):
                                   c["stmts"][-1], b["why"], b["step"], json.dumps(b["want"])[:300], json.dumps(b["got"])[:300]))
                 else:
                     rep.violation(dict(info, kind="trace-rejected-and-value-differs", program_tail=c["stmts"][-3:],
-                                       late_bound=is_late_bound(c["variant"], c["stmts"][-1])), known_matcher)
+                                       late_bound=is_late_bound(c["variant"], c["stmts"][-1]), impl_outcome=[s["outcome"], s["msg"][:200]],
+                                       self_ref_panic=self_ref_panic(c["stmts"], s["outcome"] + " " + s["msg"])), known_matcher)
             else:
                 rep.add("model_drift_programs", 1)
                 print("MODEL-DRIFT: property=C09 VM.tla does not reproduce the opcode trace of example %s (%s at step %s: model %s, "
@@ -223,13 +248,17 @@ def j_stage(rep, tier, cases, cat_by_variant, d):
 # ------------------------------------------------------------------------------------------------------ run
 def run(tier, seed):
     rep = nv.Report(PROP, tier, seed, "model_checking")
+    if os.environ.get("NV_C09_ASSUME_PROPOSED") and os.path.exists(PROPOSED):
+        # experiments only: treat the findings proposed by this check (c09_proposed_findings.json) as known
+        rep.known += [e for e in json.load(open(PROPOSED)) if e.get("property") == PROP and e["id"] not in [k.get("id") for k in rep.known]]
+        rep.notes["assumed_proposed_findings"] = [e["id"] for e in rep.known]
     nv.build_harness(["nv-eval", "nv-vm"])
     d = nv.scratch("c09")
     cfg = os.path.join(nv.SPEC, "_gen_VM_%d.cfg" % os.getpid())
     with open(cfg, "w") as f:
-        f.write('CONSTANTS Tier = "%s"\nSPECIFICATION VSpec\n'
+        f.write('CONSTANTS Tier = "%s"\n          SelfRef = %s\nSPECIFICATION VSpec\n'
                 'INVARIANTS EvalTotalV JumpsAreForward RootReturnHeight FramesBalanced VmTotal VmAgrees EmitCaseV EmitCatCode\n'
-                'CHECK_DEADLOCK FALSE\n' % tier)
+                'CHECK_DEADLOCK FALSE\n' % (tier, "TRUE" if self_ref_enabled() else "FALSE"))
     try:
         res = nv.tlc("MC_VM", os.path.basename(cfg), workers=8, timeout=3000, want_tags=("CASE", "VMDIFF", "CATCODE"))
     finally:
@@ -269,7 +298,8 @@ def run(tier, seed):
         rep.add("evaluations", 1)
         final = c["stmts"][-1]
         if "setup_error" in r:
-            rep.violation({"kind": "setup-failed", "msg": r["setup_error"][:300]})
+            rep.violation({"kind": "setup-failed", "msg": r["setup_error"][:300], "self_ref_panic": self_ref_panic(c["stmts"], r["setup_error"])},
+                          known_matcher)
             continue
         want = c["res"]
         kinds[want["k"]] = kinds.get(want["k"], 0) + 1
